@@ -61,8 +61,8 @@ BOUNDS = {
            "attributes, text positions, lexical tokens); TTML attribute values from the boundary values + the VERIF_SEED-selected quarter of the "
            "199 typed pool values; 2 deviations: line tokenisations of <= 5 lines and the smallest TTML seed (light menu). Token strings of length "
            "<= 3: SRT / WebVTT line alphabets (with and without final EOL) and inline alphabets inside a cue, SCC line and CEA-608 word alphabets, "
-           "STL TTI-block alphabet (2 GSI/cfg contexts), TTML element chains in 6 contexts; TTML host x attribute x value product over the "
-           "VERIF_SEED-selected third of the 52 attribute names (12 hosts, all 206 pool values). Corpus (3 SCC, 50 STL, 4 TTML, 132 VTT files), "
+           "STL TTI-block alphabet (2 GSI/cfg contexts), TTML element chains in 6 contexts; TTML host x attribute x value product: 52 attribute "
+           "names x (tt host: all 206 pool values; 11 other hosts: the VERIF_SEED-selected third of the pool). Corpus (3 SCC, 50 STL, 4 TTML, 132 VTT files), "
            "0 and 1 deviation, CAPPED as stated in the family notes (evidence.coverage.families[].note): large files get reduced menus, wpt-tests "
            "VTT files and STL files get full menus on VERIF_SEED-selected slices, every file is read unchanged. WebVTT writer: the 4 configurations "
            "lp0ta0id1 lp1ta1id1 lp1ta0id0 lp0ta1id0 (every pair of option values)",
@@ -72,7 +72,7 @@ BOUNDS = {
               "eighth of the wpt-tests files, every GSI/TTI field and TF byte of every STL file; all 8 WebVTT writer configurations",
 }
 ASSUMPTIONS = [
-  "'terminates' is checked as 'finishes within the per-case time limit' (30 s)",
+  "'terminates' is checked as 'finishes within the per-case time limit' (120 s wall clock; the slowest explored case needs about 2 s of CPU)",
   "a reader outcome is documented iff it is a document, None after a record of level >= ERROR on the ttconv logger, or an exception "
   "whose type is xml.etree.ElementTree.ParseError, ValueError (incl. UnicodeDecodeError) or struct.error; every other exception type "
   "(including deliberate RuntimeError raises) is reported under C18.reader.<format>",
@@ -117,6 +117,7 @@ LCD_CFGS = [
 VTT_QUICK = [c for c in VTT_CFGS if c[0] in ("lp0ta0id1", "lp1ta1id1", "lp1ta0id0", "lp0ta1id0")]
 _TIER = "quick"
 
+TIME_LIMIT = 120.0        # seconds of wall clock per case; the slowest legitimate case takes about 2 s of CPU on an idle core
 MAX_PROBES = 400           # cap on snapshot times per document (reported by the counter isd_probe_cap_hits when it binds)
 
 
@@ -532,7 +533,7 @@ def _run_range_factory(fam_ref):
   return run_range
 
 
-def _family(name, n, decode, note, timeout=30.0, chunk=None):
+def _family(name, n, decode, note, timeout=TIME_LIMIT, chunk=None):
   ref = []
   fam = Family(name, n, decode, check, shrink=shrink, timeout=timeout, chunk=chunk, note=note, run_range=_run_range_factory(ref))
   ref.append(fam)
@@ -762,13 +763,16 @@ def string_families(tier, seed):
         for ctx, kk in (("tt", k), ("body", k), ("p", k), ("layout", k - 1), ("styling", k - 1), ("bare", k - 1))]
   fams.append(_union("strings[ttml elements]", sp, f"all nesting chains of <= {k} element symbols ({len(g.CHAIN_ALPHABET)} symbols) placed in tt, body and p; <= {k - 1} "
                      "in layout, styling and as the document root"))
-  names = ATTR_PRODUCT_NAMES
-  note = f"every host element ({len(g.ATTR_HOSTS)}) x every attribute name x every pool value ({len(g.VALUE_POOL)})"
-  if not thorough:
-    names = ATTR_PRODUCT_NAMES[seed % 3::3]
-    note += f"; quick: third {seed % 3} of 3 of the {len(ATTR_PRODUCT_NAMES)} attribute names ({len(names)} names, VERIF_SEED selects)"
-  n, dec = g.attr_product(names=names)
-  fams.append(_family("strings[ttml host.attribute=value]", n, dec, note))
+  note = f"every host element ({len(g.ATTR_HOSTS)}) x every attribute name ({len(ATTR_PRODUCT_NAMES)}) x every pool value ({len(g.VALUE_POOL)})"
+  if thorough:
+    parts = [_Fn(*g.attr_product(names=ATTR_PRODUCT_NAMES))]
+  else:
+    pool = g.VALUE_POOL[seed % 3::3]
+    note += (f"; quick: the tt host (document parameters) with the whole pool, the other hosts with third {seed % 3} of 3 of the pool values "
+             f"({len(pool)} values, VERIF_SEED selects)")
+    parts = [_Fn(*g.attr_product(hosts=["tt"], names=ATTR_PRODUCT_NAMES)),
+             _Fn(*g.attr_product(hosts=[h for h in g.ATTR_HOSTS if h != "tt"], names=ATTR_PRODUCT_NAMES, pool=pool))]
+  fams.append(_union("strings[ttml host.attribute=value]", parts, note))
   return fams
 
 
